@@ -1,4 +1,5 @@
 import Babble.Model.Codec
+import Babble.Model.Dag
 import Std.Data.HashMap
 /-! Line-protocol engine for the hashgraph model (`HG ...` operations). Core Lean only. -/
 open Babble Babble.HG
@@ -42,6 +43,37 @@ def witFlag (s : St) (e : Ev) : String :=
   | some r => match (s.getRound r).bind (fun ri => ri.created.find? (·.id == e.id)) with
     | some re => if re.witness then "1" else "0"
     | none => "?"
+
+/-- compare the operational state of a node (static validator set, passes after every insertion)
+    with the declarative model `Babble.Dag`: round and witness flag of every event, fame of every
+    witness -/
+def dagCheck (s : St) : String :=
+  let ps := s.peersAt 0
+  let num (id : String) : Nat := if id == "" then 0 else nameNum id + 1
+  let nodes : List Dag.Node := s.events.reverse.map (fun e =>
+    { id := num e.id, creator := e.creator, sp := num e.sp, op := num e.op, mid := e.mid })
+  let tbl := Dag.build ps nodes
+  let view : List Dag.Rec := tbl.filterMap (fun p => p.2.head?)
+  let bad := s.events.filterMap (fun e =>
+    match view.find? (fun r => r.e.id == num e.id) with
+    | none => some s!"{e.id}:missing"
+    | some r =>
+      if e.round != some r.round then some s!"{e.id}:round {fmtOpt e.round} spec {r.round}" else
+      let w := witFlag s e
+      if w != (if r.wit then "1" else "0") then some s!"{e.id}:witness {w} spec {r.wit}" else
+      if !r.wit then none else
+      let ri := (s.getRound r.round).getD {}
+      let fm := ((ri.created.find? (·.id == e.id)).map (·.fame)).getD .undef
+      match Dag.fameIn ps view r, fm with
+      | some true, .yes => none
+      | some false, .no => none
+      | none, .undef => none
+      | some false, .undef => if ri.decided then none else some s!"{e.id}:fame undecided spec false (round not latched)"
+      | sf, f => some s!"{e.id}:fame {repr f} spec {sf}")
+  let nw := (view.filter (·.wit)).length
+  let nf := (view.filter (fun r => r.wit && Dag.fameIn ps view r == some true)).length
+  if bad.isEmpty then s!"O dag ok ev={view.length} wit={nw} famous={nf}"
+  else s!"O dag MISMATCH {bad.length}: {" | ".intercalate (bad.take 5)}"
 
 def hgStep (h : HGState) (toks : List String) : HGState × List String :=
   match toks with
@@ -129,4 +161,8 @@ def hgStep (h : HGState) (toks : List String) : HGState × List String :=
         let pend := s.pending.map (fun p => s!"{p.1}:{if p.2 then 1 else 0}")
         (h, [s!"O last lastRound={s.lastRound} lcr={fmtOpt s.lcr} undet={s.undet.length} pending={fmtList pend} lastBlock={s.lastBlock}"])
       | _ => (h, ["O bad-op"])
+  | ["dag", n] =>
+    match n.toNat?.bind (h.nodes.get? ·) with
+    | none => (h, ["O bad-op"])
+    | some s => (h, [dagCheck s])
   | _ => (h, ["O bad-op"])
